@@ -231,6 +231,16 @@ func (s *Stack) Arm() {
 	}
 	s.DB.FaultCommits = s.Opt.FaultCommits
 	s.DB.FaultSets = s.Opt.FaultSets
+	if s.Opt.FaultSets {
+		var keys []string
+		for id, c := range s.Connectors.List(context.Background()) {
+			if c.Type == connector.TypeSource {
+				keys = append(keys, "connector:instance:"+id)
+			}
+		}
+		sort.Strings(keys)
+		s.DB.FaultKeys = keys
+	}
 }
 
 // Status returns the in-memory status of the pipeline.
